@@ -172,6 +172,9 @@ class State:
         if key in cache:
             return cache[key]
         s = z3.Solver()
+        # a deterministic resource limit decides (same answer on every run and
+        # under any load); the wall-clock limit is only a backstop
+        s.set("rlimit", self.eng.feas_rlimit)
         s.set("timeout", self.eng.feas_timeout_ms)
         for h in self.pc:
             s.add(h)
@@ -229,11 +232,13 @@ def _as_int(v):
 
 
 class Engine:
-    def __init__(self, registry, repo, feas_timeout_ms=150):
+    def __init__(self, registry, repo, feas_timeout_ms=3000,
+                 feas_rlimit=400000):
         self.reg = registry
         self.repo = repo
         self.feas_cache = {}
         self.feas_timeout_ms = feas_timeout_ms
+        self.feas_rlimit = feas_rlimit
         self.obligations: list[Obligation] = []
         self._obl_keys = set()
         self.str_consts: dict[str, z3.ExprRef] = {}
